@@ -625,13 +625,14 @@ class Chooser:
     def start(self, prefix):
         self.prefix = list(prefix)
         self.cursor = 0
+        self.deviations = []      # (label, alternative) of every non-canonical choice taken
 
-    def pick(self, n):
+    def pick(self, n, label='', names=None):
         if n <= 1:
             return 0
         if self.rng is not None:
-            return self.rng.randrange(n)
-        if self.cursor < len(self.prefix):
+            d = self.rng.randrange(n)
+        elif self.cursor < len(self.prefix):
             d = self.prefix[self.cursor]
         else:
             d = 0
@@ -639,18 +640,24 @@ class Chooser:
                 self.pending.append(self.prefix[:self.cursor] + [alt])
             self.prefix.append(0)
         self.cursor += 1
+        if d:
+            self.deviations.append((label, names[d] if names else d))
         return d
 
 
 def length_forms(n, ch, allow_indef):
     forms = [bytes(length_def(n))]
+    names = ['minimal']
     d = be256(n) or [0]
     if n < 128:
         forms.append(bytes([0x81, n]))
+        names.append('long-for-short')
     forms.append(bytes([0x80 + len(d) + 1, 0] + d))
+    names.append('leading-zero')
     if allow_indef:
         forms.append(None)
-    return forms[ch.pick(len(forms))]
+        names.append('indefinite')
+    return forms[ch.pick(len(forms), 'length', names)]
 
 
 def frame_any(cls, pc, num, content, ch):
@@ -663,13 +670,13 @@ def frame_any(cls, pc, num, content, ch):
 def seg_tree(data, num, ch, depth, unused=None):
     """contents of a constructed string: segments, each primitive or (depth permitting) constructed"""
     cuts = [None, 1, max(1, len(data) // 2)]
-    cut = cuts[ch.pick(3)] if len(data) > 1 else None
+    cut = cuts[ch.pick(3, 'cut', ['one', 'at-1', 'half'])] if len(data) > 1 else None
     parts = [data] if cut is None else [data[:cut], data[cut:]]
     out = b''
     for i, part in enumerate(parts):
         last = i == len(parts) - 1
         u = (unused if last else 0) if unused is not None else None
-        if depth > 0 and len(part) > 1 and ch.pick(2) == 1:
+        if depth > 0 and len(part) > 1 and ch.pick(2, 'nested-segment', ['primitive', 'constructed']) == 1:
             out += frame_any(0, 32, num, seg_tree(part, num, ch, depth - 1, u), ch)
         else:
             body = (bytes([u]) + part) if unused is not None else part
@@ -680,29 +687,29 @@ def seg_tree(data, num, ch, depth, unused=None):
 def content_any(T, v, ch):
     k = T['k']
     if k == 'BOOLEAN':
-        return (bytes([(0x01, 0x7f, 0xff)[ch.pick(3)]]) if v else b'\x00'), False
+        return (bytes([(0xff, 0x01, 0x7f)[ch.pick(3, 'bool', ['ff', '01', '7f'])]]) if v else b'\x00'), False
     if k == 'BITSTRING':
         c = bytes(bits_content(v))
-        if len(c) > 1 and ch.pick(2) == 1:
+        if len(c) > 1 and ch.pick(2, 'segmented', ['primitive', 'constructed']) == 1:
             return seg_tree(c[1:], 3, ch, 1, c[0]), True
         return c, False
     if k in STRINGS:
         c = str_octets(k, v)
-        if len(c) > 0 and ch.pick(2) == 1:
+        if len(c) > 0 and ch.pick(2, 'segmented', ['primitive', 'constructed']) == 1:
             return seg_tree(c, 4, ch, 1), True
         return c, False
     if k in ('SEQUENCE', 'SET'):
         chunks = []
         for n, ft, mode in T['fields']:
             if n not in v:
-                if isinstance(mode, tuple) and ch.pick(2) == 1:
+                if isinstance(mode, tuple) and ch.pick(2, 'default', ['absent', 'explicit']) == 1:
                     chunks.append(enc_any(ft, mode[1], ch))      # DEFAULT value may be sent explicitly
                 continue
             chunks.append(enc_any(ft, v[n], ch))
         if k == 'SET' and len(chunks) > 1:
-            r = ch.pick(min(len(chunks), 3))
+            r = ch.pick(min(len(chunks), 3), 'set-rotate')
             chunks = chunks[r:] + chunks[:r]
-            if ch.pick(2) == 1:
+            if ch.pick(2, 'set-reverse') == 1:
                 chunks.reverse()
         return b''.join(chunks), True
     if k in ('SEQUENCEOF', 'SETOF'):
@@ -727,26 +734,36 @@ def enc_any(T, v, ch):
     return out
 
 
-def ber_forms(T, v, limit=200, rng=None):
+def ber_forms(T, v, limit=200, rng=None, with_deviations=False):
     """yield distinct BER encodings of v (systematic up to `limit`, or `limit` random samples)."""
     seen = set()
-    if rng is not None:
-        ch = Chooser(rng)
-        for _ in range(limit):
-            e = enc_any(T, v, ch)
-            if e not in seen:
-                seen.add(e)
-                yield e
-        return
-    ch = Chooser()
+    ch = Chooser(rng)
     work = [[]]
     n = 0
-    while work and n < limit:
-        ch.start(work.pop())
+    while (work or rng is not None) and n < limit:
+        ch.start(work.pop() if rng is None else [])
         ch.pending = []
         e = enc_any(T, v, ch)
-        work.extend(ch.pending)
+        if rng is None:
+            work.extend(ch.pending)
         n += 1
         if e not in seen:
             seen.add(e)
-            yield e
+            yield (e, [d[0] + ':' + str(d[1]) for d in ch.deviations]) if with_deviations else e
+
+
+def single_deviations(T, v):
+    """encodings that differ from the canonical choice at exactly one choice point: [(label, alt, bytes)]"""
+    ch = Chooser()
+    ch.start([])
+    ch.pending = []
+    enc_any(T, v, ch)
+    out = []
+    for prefix in list(ch.pending):
+        c2 = Chooser()
+        c2.start(prefix)
+        c2.pending = []
+        e = enc_any(T, v, c2)
+        if len(c2.deviations) == 1:
+            out.append((c2.deviations[0][0], c2.deviations[0][1], e))
+    return out
